@@ -3439,8 +3439,13 @@ func (n *EncapNLRI) decodeFromBytes(data []byte, options ...*MarshallingOption) 
 	default:
 		return NewMessageError(BGP_ERROR_UPDATE_MESSAGE_ERROR, BGP_ERROR_SUB_INVALID_NETWORK_FIELD, nil, "nlri length isn't valid")
 	}
-	addr, _ := netip.AddrFromSlice(data[1:])
-	n.Endpoint = addr
+	// take the declared number of octets, not the rest of the buffer: inside an
+	// MP attribute other NLRI follow
+	addrLen := int(data[0]) / 8
+	if len(data) < 1+addrLen {
+		return NewMessageError(BGP_ERROR_UPDATE_MESSAGE_ERROR, BGP_ERROR_SUB_INVALID_NETWORK_FIELD, nil, "nlri is short")
+	}
+	n.Endpoint, _ = netip.AddrFromSlice(data[1 : 1+addrLen])
 	return nil
 }
 
